@@ -454,6 +454,16 @@ def r18_4(ctx, rc):
             v = st.value
             if isinstance(v, ast.BinOp) and isinstance(v.op, ast.Add):
                 enc['list'] = _const_tuple(v.left)
+            elif isinstance(v, ast.Tuple) and any(
+                    isinstance(e, ast.Starred) for e in v.elts):
+                # (0, *[...]): the constants in front of the expansion
+                lead = []
+                for e in v.elts:
+                    if isinstance(e, ast.Starred):
+                        break
+                    lead.append(e)
+                enc['list'] = _const_tuple(ast.Tuple(elts=lead,
+                                                     ctx=ast.Load()))
             elif isinstance(v, ast.Call) and v.args and 'list' not in enc:
                 enc['list'] = None
         elif cname == 'dict' and isinstance(st, ast.Assign) and isinstance(
@@ -702,6 +712,77 @@ def r18_6(ctx, rc):
         raise AnalysisError('dict branch of sanitize not recognised')
 
 
+LOSSY = {'math.isclose', 'builtins.round', 'builtins.abs', 'math.floor',
+         'math.ceil', 'math.trunc', 'builtins.hash', 'builtins.repr',
+         'builtins.str', 'builtins.int', 'builtins.float', 'json.dumps',
+         'method:str.lower', 'method:str.upper', 'method:str.casefold',
+         'method:str.strip', 'unicodedata.normalize', 'numpy.isclose'}
+
+
+def r18_7(ctx, rc):
+    """JSON equality is exact: ``is_equal`` decides scalars by ``==`` on the
+    values themselves, never through a tolerance or a lossy mapping
+    (``math.isclose``, rounding, case folding, comparing ``repr``/hashes) -
+    two different versions or arguments would compare equal.  And
+    ``_key_to_str`` spells a float key as ``float.__repr__`` does: no
+    ``int()`` on a key that may be a float (2.0 is the key "2.0", not "2")."""
+    prog = ctx.prog
+    E = _util(ctx, "is_equal")
+    closure = [E]
+    for c in prog.calls_in(E):
+        for g in prog.resolve_call(c, E):
+            if isinstance(g, Func) and g.cls == E.cls and \
+                    not g.is_public and g not in closure:
+                closure.append(g)
+    bad = []
+    for f in closure:
+        for c in prog.calls_in(f):
+            for g in prog.resolve_call(c, f):
+                nm = g if isinstance(g, str) else None
+                if nm in LOSSY or (nm or '').endswith(('.lower', '.casefold',
+                                                       '.upper')):
+                    bad.append((f, c, nm))
+    key = 'is_equal compares scalars exactly'
+    if bad:
+        f, c, nm = bad[0]
+        rc.violation(
+            'inexact-equality | %s | %s' % (f.qualname, nm),
+            '%s decides equality through %s: values that differ (versions, '
+            'arguments, recorded results) can compare equal, so a change is '
+            'not noticed' % (f.qualname, nm), prog.loc(f, c), key=key)
+    else:
+        rc.ok({'closure': [f.qualname for f in closure],
+               'lossy_calls': 0}, key=key)
+    K = _util(ctx, "_key_to_str")
+    sg = ctx.E.super(K, lambda g: False)
+    key = '_key_to_str never renders a float key through int()'
+    hit = None
+    for x in sg.nodes:
+        if x.kind == 'leaf' and x.call is not None and \
+                'builtins.int' in prog.resolve_call(x.call, K):
+            # which classes can the key have here?
+            classes = None
+            for pol, atom, f_, c_ in Q.control_facts(sg, x.id):
+                if pol == 'T' and isinstance(atom, ast.Call) and \
+                        isinstance(atom.func, ast.Name) and \
+                        atom.func.id == 'isinstance' and len(atom.args) == 2:
+                    t = atom.args[1]
+                    names = {e.id for e in (t.elts if isinstance(
+                        t, ast.Tuple) else [t]) if isinstance(e, ast.Name)}
+                    classes = names if classes is None else classes & names
+            if classes is None or 'float' in classes:
+                hit = x
+    if hit is not None:
+        rc.violation(
+            'float-key-as-int | ' + K.qualname,
+            '%s applies int() to a key that can be a float: an integral '
+            'float key (2.0) is spelled "2" where json spells "2.0" - it '
+            'collides with the int key 2 and with the string key "2"' %
+            K.qualname, hit.where(), key=key)
+    else:
+        rc.ok({'float_keys': 'float.__repr__'}, key=key)
+
+
 RULES = [
     ('R18.1', 'sanitize returns fresh structure', r18_1),
     ('R18.2', 'sanitize/_key_to_str are total and reject with TypeError',
@@ -710,4 +791,5 @@ RULES = [
     ('R18.4', 'tag discipline of the hashable form', r18_4),
     ('R18.5', 'container equality compares lengths and key presence', r18_5),
     ('R18.6', 'colliding dict keys: last member wins, as in json', r18_6),
+    ('R18.7', 'equality is exact; float keys keep their spelling', r18_7),
 ]
